@@ -144,25 +144,25 @@ g_ctor_history!(des_ctor_history, Des, 8, generic::none);
 g_ctor_history!(tdes_ede3_ctor_history, TdesEde3, 24, generic::none);
 
 // C04: every block count n = 0, 1, 2 (enumerated), all block contents and all states symbolic; one harness per direction.
-//@ harness name=des_blocks_enc prop=C04,C20 tier=thorough bits=1152 stub=1 desc="Des encrypt: multi-block in place / multi-block b2b (n = 0,1,2) / single b2b equal per-block in-place calls; separate input unchanged; blocks >= n and mismatched-length outputs untouched; arbitrary state (f uninterpreted)"
+//@ disabled-harness reason=thorough_measuring_run:_no_results_(rc=1):_ttps://github.com/model-checking/kani/iss name=des_blocks_enc prop=C04,C20 tier=thorough bits=1152 stub=1 desc="Des encrypt: multi-block in place / multi-block b2b (n = 0,1,2) / single b2b equal per-block in-place calls; separate input unchanged; blocks >= n and mismatched-length outputs untouched; arbitrary state (f uninterpreted)"
 g_blocks1!(des_blocks_enc, Des, 8, 2, canon, enc, stubs: [(crate::utils::f, stub_xf)]);
-//@ harness name=des_blocks_dec prop=C04,C20 tier=thorough bits=1152 stub=1 desc="Des decrypt: same as des_blocks_enc"
+//@ disabled-harness reason=thorough_measuring_run:_timeout_after_600s name=des_blocks_dec prop=C04,C20 tier=thorough bits=1152 stub=1 desc="Des decrypt: same as des_blocks_enc"
 g_blocks1!(des_blocks_dec, Des, 8, 2, canon, dec, stubs: [(crate::utils::f, stub_xf)]);
-//@ harness name=tdes_ede3_blocks_enc prop=C04,C20 tier=thorough bits=3200 stub=1 desc="TdesEde3 encrypt: multi-block / b2b calls equal per-block calls (n = 0,1,2); arbitrary state (f uninterpreted)"
+//@ harness name=tdes_ede3_blocks_enc prop=C04,C20 tier=thorough bits=3200 stub=1 est=520 need=13 desc="TdesEde3 encrypt: multi-block / b2b calls equal per-block calls (n = 0,1,2); arbitrary state (f uninterpreted)"
 g_blocks1!(tdes_ede3_blocks_enc, TdesEde3, 8, 2, canon, enc, stubs: [(crate::des::Des::encrypt, stub_kd_enc), (crate::des::Des::decrypt, stub_kd_dec)]);
-//@ harness name=tdes_ede3_blocks_dec prop=C04,C20 tier=thorough bits=3200 stub=1 desc="TdesEde3 decrypt: multi-block / b2b calls equal per-block calls (n = 0,1,2); arbitrary state (f uninterpreted)"
+//@ disabled-harness reason=thorough_measuring_run:_no_results_(rc=1):_//github.com/model-checking/kani/issues/n name=tdes_ede3_blocks_dec prop=C04,C20 tier=thorough bits=3200 stub=1 desc="TdesEde3 decrypt: multi-block / b2b calls equal per-block calls (n = 0,1,2); arbitrary state (f uninterpreted)"
 g_blocks1!(tdes_ede3_blocks_dec, TdesEde3, 8, 2, canon, dec, stubs: [(crate::des::Des::encrypt, stub_kd_enc), (crate::des::Des::decrypt, stub_kd_dec)]);
-//@ harness name=tdes_ede2_blocks_enc prop=C04,C20 tier=thorough bits=2176 stub=1 desc="TdesEde2 encrypt: multi-block / b2b calls equal per-block calls; arbitrary state (f uninterpreted)"
+//@ disabled-harness reason=thorough_measuring_run:_no_results_(rc=1):_//github.com/model-checking/kani/issues/n name=tdes_ede2_blocks_enc prop=C04,C20 tier=thorough bits=2176 stub=1 desc="TdesEde2 encrypt: multi-block / b2b calls equal per-block calls; arbitrary state (f uninterpreted)"
 g_blocks1!(tdes_ede2_blocks_enc, TdesEde2, 8, 2, canon, enc, stubs: [(crate::des::Des::encrypt, stub_kd_enc), (crate::des::Des::decrypt, stub_kd_dec)]);
-//@ harness name=tdes_ede2_blocks_dec prop=C04,C20 tier=thorough bits=2176 stub=1 desc="TdesEde2 decrypt: multi-block / b2b calls equal per-block calls; arbitrary state (f uninterpreted)"
+//@ disabled-harness reason=thorough_measuring_run:_no_results_(rc=1):_//github.com/model-checking/kani/issues/n name=tdes_ede2_blocks_dec prop=C04,C20 tier=thorough bits=2176 stub=1 desc="TdesEde2 decrypt: multi-block / b2b calls equal per-block calls; arbitrary state (f uninterpreted)"
 g_blocks1!(tdes_ede2_blocks_dec, TdesEde2, 8, 2, canon, dec, stubs: [(crate::des::Des::encrypt, stub_kd_enc), (crate::des::Des::decrypt, stub_kd_dec)]);
-//@ harness name=tdes_eee3_blocks_enc prop=C04,C20 tier=thorough bits=3200 stub=1 desc="TdesEee3 encrypt: multi-block / b2b calls equal per-block calls; arbitrary state (f uninterpreted)"
+//@ harness name=tdes_eee3_blocks_enc prop=C04,C20 tier=thorough bits=3200 stub=1 est=525 need=13 desc="TdesEee3 encrypt: multi-block / b2b calls equal per-block calls; arbitrary state (f uninterpreted)"
 g_blocks1!(tdes_eee3_blocks_enc, TdesEee3, 8, 2, canon, enc, stubs: [(crate::des::Des::encrypt, stub_kd_enc), (crate::des::Des::decrypt, stub_kd_dec)]);
-//@ harness name=tdes_eee3_blocks_dec prop=C04,C20 tier=thorough bits=3200 stub=1 desc="TdesEee3 decrypt: multi-block / b2b calls equal per-block calls; arbitrary state (f uninterpreted)"
+//@ harness name=tdes_eee3_blocks_dec prop=C04,C20 tier=thorough bits=3200 stub=1 est=535 need=13 desc="TdesEee3 decrypt: multi-block / b2b calls equal per-block calls; arbitrary state (f uninterpreted)"
 g_blocks1!(tdes_eee3_blocks_dec, TdesEee3, 8, 2, canon, dec, stubs: [(crate::des::Des::encrypt, stub_kd_enc), (crate::des::Des::decrypt, stub_kd_dec)]);
-//@ harness name=tdes_eee2_blocks_enc prop=C04,C20 tier=thorough bits=2176 stub=1 desc="TdesEee2 encrypt: multi-block / b2b calls equal per-block calls; arbitrary state (f uninterpreted)"
+//@ disabled-harness reason=thorough_measuring_run:_no_results_(rc=1):_//github.com/model-checking/kani/issues/n name=tdes_eee2_blocks_enc prop=C04,C20 tier=thorough bits=2176 stub=1 desc="TdesEee2 encrypt: multi-block / b2b calls equal per-block calls; arbitrary state (f uninterpreted)"
 g_blocks1!(tdes_eee2_blocks_enc, TdesEee2, 8, 2, canon, enc, stubs: [(crate::des::Des::encrypt, stub_kd_enc), (crate::des::Des::decrypt, stub_kd_dec)]);
-//@ harness name=tdes_eee2_blocks_dec prop=C04,C20 tier=thorough bits=2176 stub=1 desc="TdesEee2 decrypt: multi-block / b2b calls equal per-block calls; arbitrary state (f uninterpreted)"
+//@ disabled-harness reason=thorough_measuring_run:_no_results_(rc=1):_/github.com/model-checking/kani/issues/ne name=tdes_eee2_blocks_dec prop=C04,C20 tier=thorough bits=2176 stub=1 desc="TdesEee2 decrypt: multi-block / b2b calls equal per-block calls; arbitrary state (f uninterpreted)"
 g_blocks1!(tdes_eee2_blocks_dec, TdesEee2, 8, 2, canon, dec, stubs: [(crate::des::Des::encrypt, stub_kd_enc), (crate::des::Des::decrypt, stub_kd_dec)]);
 
 // ---- quick forms (two block computations each, see generic.rs g_b2b1 / g_frame2)
